@@ -1595,6 +1595,36 @@ func Program(rt *rapid.T, p Profile) (*oracle.Program, *Meta) {
 		files["lib/util/util.go"] = fmt.Sprintf("package util\n\nimport \"ROOT/lib/more\"\n\nconst Scale = %d\n\nvar State = more.Count * 2\n\nfunc init() {\n\tState += Scale\n}\n\nfunc Twice(a int) int {\n\treturn a * 2\n}\n\nfunc Next() int {\n\treturn more.Bump()\n}\n", k+1)
 		files["lib/util/point.go"] = "package util\n\ntype Point struct {\n\tX, Y int\n}\n\nfunc (p *Point) Sum() int {\n\treturn p.X + p.Y\n}\n\nfunc NewPoint(x int, y int) *Point {\n\treturn &Point{X: x, Y: y}\n}\n\nfunc Tag(s string) string {\n\treturn \"<\" + s + \">\"\n}\n\nfunc Half(f float64) float64 {\n\treturn f / 2\n}\n"
 		g.meta.feat("multipkg")
+		// further packages whose initialisation is observable: each notes its variable initialiser and its init
+		// function in lib/rec's log, which Main prints. Go initialises packages in a specified order (sorted by import
+		// path, repeatedly the first one whose imports are all initialised), so the log is the same everywhere.
+		if rx.Chance(rt, "initorder", 2, 3) {
+			g.meta.feat("initorder")
+			pool := []string{"lib/alpha", "lib/beta", "lib/gamma", "lib/delta", "zeta", "lib/x/omega", "aaa"}
+			perm := rapid.Permutation(pool).Draw(rt, "pkgperm")
+			names := perm[:rx.Range(rt, "nextra", 2, 5)]
+			files["lib/rec/rec.go"] = "package rec\n\nvar Log = \"\"\n\nfunc Note(s string) int {\n\tLog += s + \";\"\n\treturn len(Log)\n}\n"
+			imports = append(imports, "ROOT/lib/rec")
+			var ids []string
+			for i, path := range names {
+				base := path[strings.LastIndex(path, "/")+1:]
+				var sb strings.Builder
+				fmt.Fprintf(&sb, "package %s\n\nimport \"ROOT/lib/rec\"\n", base)
+				id := "1"
+				for j := i + 1; j < len(names); j++ {
+					if rx.Chance(rt, "edge", 1, 2) {
+						dep := names[j]
+						fmt.Fprintf(&sb, "import \"ROOT/%s\"\n", dep)
+						id += " + " + dep[strings.LastIndex(dep, "/")+1:] + ".ID()"
+					}
+				}
+				fmt.Fprintf(&sb, "\nvar V = rec.Note(\"%s.var\")\n\nfunc init() {\n\trec.Note(\"%s.init\")\n}\n\nfunc ID() int {\n\treturn %s\n}\n", base, base, id)
+				files[path+"/"+base+".go"] = sb.String()
+				imports = append(imports, "ROOT/"+path)
+				ids = append(ids, base+".ID()")
+			}
+			src = strings.Replace(src, "func Main() {\n", "func Main() {\n\tfmt.Println(\"initlog\", rec.Log, "+strings.Join(ids, ", ")+")\n", 1)
+		}
 	}
 	hdr := "package prog\n\nimport (\n"
 	for _, im := range imports {
